@@ -1,1 +1,543 @@
+//! E3: stateless choice-sequence exploration with deviation bounding, scripted pipes (blocking and
+//! async) whose every answer is a choice point, and a single-threaded executor whose poll order is
+//! a choice point too. All real flatty-io code; the only model is "the stream is a byte queue".
 
+use futures::io::{AsyncRead, AsyncWrite};
+use futures::task::{waker, ArcWake};
+use std::cell::{Cell, RefCell};
+use std::collections::VecDeque;
+use std::future::Future;
+use std::io::{self, Read, Write};
+use std::pin::Pin;
+use std::rc::Rc;
+use std::sync::atomic::{AtomicBool, Ordering};
+use std::sync::Arc;
+use std::task::{Context, Poll, Waker};
+
+// ------------------------------------------------------------------------------------------
+// explorer
+// ------------------------------------------------------------------------------------------
+
+#[derive(Default)]
+struct ExState {
+    prefix: Vec<(u16, u16)>,
+    trace: Vec<(u16, u16)>,
+}
+
+thread_local! {
+    static EX: RefCell<ExState> = RefCell::new(ExState::default());
+}
+
+/// A decision of the environment with `arity` alternatives; alternative 0 is the default answer.
+pub fn point(arity: usize) -> usize {
+    if arity <= 1 {
+        return 0;
+    }
+    EX.with(|e| {
+        let mut e = e.borrow_mut();
+        let i = e.trace.len();
+        let c = if i < e.prefix.len() {
+            let (c, a) = e.prefix[i];
+            if a as usize != arity {
+                // a divergence while replaying a prefix is a hard machinery error
+                eprintln!("MACHINERY: explorer divergence at point {}: arity {} recorded, {} offered", i, a, arity);
+                std::process::exit(2);
+            }
+            c
+        } else {
+            0
+        };
+        e.trace.push((c, arity as u16));
+        c as usize
+    })
+}
+
+fn begin(prefix: &[(u16, u16)]) {
+    EX.with(|e| {
+        let mut e = e.borrow_mut();
+        e.prefix = prefix.to_vec();
+        e.trace.clear();
+    })
+}
+fn end() -> Vec<(u16, u16)> {
+    EX.with(|e| std::mem::take(&mut e.borrow_mut().trace))
+}
+
+#[derive(Default, Debug, Clone)]
+pub struct Stats {
+    pub executions: u64,
+    pub max_points: usize,
+    pub capped: bool,
+    pub max_deviations_seen: usize,
+    /// decision nodes visited (sum of choice points over all executions)
+    pub total_points: u64,
+}
+
+/// Depth-first enumeration of all choice sequences with at most `bound` non-default choices
+/// (`None` = unbounded). `run` executes the system once under the current choice sequence.
+pub fn explore<R>(bound: Option<usize>, max_execs: u64, mut run: impl FnMut() -> R, mut check: impl FnMut(&[(u16, u16)], R)) -> Stats {
+    // iterative deviation bounding: everything with 0 deviations, then exactly 1, then exactly 2 ...
+    // so that the first counterexample recorded for a symptom has the fewest deviations
+    if let Some(b) = bound {
+        let mut total = Stats::default();
+        for cur in 0..=b {
+            let st = explore_le(Some(cur), max_execs, &mut run, &mut |t: &[(u16, u16)], r: R| {
+                if t.iter().filter(|(c, _)| *c != 0).count() == cur {
+                    check(t, r)
+                }
+            });
+            // executions with fewer deviations are re-executions; count the last round only
+            if cur == b {
+                total = st;
+            } else if st.max_deviations_seen < cur {
+                // no execution has that many choice points: deeper rounds add nothing
+                return st;
+            }
+        }
+        return total;
+    }
+    explore_le(None, max_execs, &mut run, &mut check)
+}
+
+fn explore_le<R>(bound: Option<usize>, max_execs: u64, run: &mut dyn FnMut() -> R, check: &mut dyn FnMut(&[(u16, u16)], R)) -> Stats {
+    let mut st = Stats::default();
+    let mut stack: Vec<Vec<(u16, u16)>> = vec![vec![]];
+    while let Some(prefix) = stack.pop() {
+        if st.executions >= max_execs {
+            st.capped = true;
+            break;
+        }
+        begin(&prefix);
+        harness::report::tick();
+        let r = run();
+        let trace = end();
+        st.executions += 1;
+        st.max_points = st.max_points.max(trace.len());
+        st.total_points += trace.len() as u64 + 1;
+        let devs_total = trace.iter().filter(|(c, _)| *c != 0).count();
+        st.max_deviations_seen = st.max_deviations_seen.max(devs_total);
+        check(&trace, r);
+        let mut dev = prefix.iter().filter(|(c, _)| *c != 0).count();
+        for i in prefix.len()..trace.len() {
+            let (c, a) = trace[i];
+            debug_assert_eq!(c, 0);
+            if bound.map_or(true, |b| dev + 1 <= b) {
+                for alt in (1..a).rev() {
+                    let mut p = trace[..i].to_vec();
+                    p.push((alt, a));
+                    stack.push(p);
+                }
+            }
+            if c != 0 {
+                dev += 1;
+            }
+        }
+    }
+    st
+}
+
+/// Re-run one recorded choice sequence.
+pub fn replay<R>(choices: &[(u16, u16)], mut run: impl FnMut() -> R) -> (Vec<(u16, u16)>, R) {
+    begin(choices);
+    let r = run();
+    (end(), r)
+}
+
+// ------------------------------------------------------------------------------------------
+// fault alphabet
+// ------------------------------------------------------------------------------------------
+
+#[derive(Clone, Copy, Debug, PartialEq)]
+pub enum Fault {
+    None,
+    Err(io::ErrorKind),
+    /// write returns Ok(0) / read reports end of stream
+    Zero,
+}
+
+#[derive(Clone, Debug)]
+pub struct FaultCfg {
+    pub enabled: bool,
+    pub kinds: Vec<io::ErrorKind>,
+    pub budget: usize,
+}
+impl FaultCfg {
+    pub fn off() -> Self {
+        FaultCfg { enabled: false, kinds: vec![], budget: 0 }
+    }
+}
+
+#[derive(Default)]
+pub struct FaultState {
+    used: usize,
+    persistent: Option<Fault>,
+    pub injected: Vec<(usize, String)>,
+}
+
+/// Decide the fault (if any) for pipe call number `call`.
+fn fault_point(cfg: &FaultCfg, st: &mut FaultState, call: usize) -> Fault {
+    if !cfg.enabled {
+        return Fault::None;
+    }
+    if let Some(f) = st.persistent {
+        return f;
+    }
+    if st.used >= cfg.budget {
+        return Fault::None;
+    }
+    // alternatives: none | each kind once | zero once | first kind forever | zero forever
+    let k = cfg.kinds.len();
+    let c = point(1 + k + 1 + 2);
+    if c == 0 {
+        return Fault::None;
+    }
+    st.used += 1;
+    let (f, persistent) = if c <= k {
+        (Fault::Err(cfg.kinds[c - 1]), false)
+    } else if c == k + 1 {
+        (Fault::Zero, false)
+    } else if c == k + 2 {
+        (Fault::Err(cfg.kinds[0]), true)
+    } else {
+        (Fault::Zero, true)
+    };
+    if persistent {
+        st.persistent = Some(f);
+    }
+    st.injected.push((call, format!("{:?}{}", f, if persistent { " forever" } else { " once" })));
+    f
+}
+
+pub const HORIZON_MSG: &str = "VERIF-HORIZON";
+
+// ------------------------------------------------------------------------------------------
+// blocking pipes
+// ------------------------------------------------------------------------------------------
+
+pub struct SinkState {
+    pub bytes: Vec<u8>,
+    pub calls: usize,
+    pub calls_in_op: usize,
+    pub horizon_per_op: usize,
+    pub faults: FaultState,
+}
+
+pub struct ScriptWrite {
+    pub st: Rc<RefCell<SinkState>>,
+    pub cfg: FaultCfg,
+    pub chunking: bool,
+}
+
+impl Write for ScriptWrite {
+    fn write(&mut self, buf: &[u8]) -> io::Result<usize> {
+        let mut st = self.st.borrow_mut();
+        st.calls += 1;
+        st.calls_in_op += 1;
+        if st.calls_in_op > st.horizon_per_op {
+            drop(st);
+            panic!("{}", HORIZON_MSG);
+        }
+        let call = st.calls;
+        match fault_point(&self.cfg, &mut st.faults, call) {
+            Fault::Err(k) => return Err(k.into()),
+            Fault::Zero => return Ok(0),
+            Fault::None => {}
+        }
+        if buf.is_empty() {
+            return Ok(0);
+        }
+        let k = if self.chunking { buf.len() - point(buf.len()) } else { buf.len() };
+        st.bytes.extend_from_slice(&buf[..k]);
+        Ok(k)
+    }
+    fn flush(&mut self) -> io::Result<()> {
+        Ok(())
+    }
+}
+
+pub struct SourceState {
+    pub stream: Vec<u8>,
+    pub pos: usize,
+    pub calls: usize,
+    pub calls_in_op: usize,
+    pub horizon_per_op: usize,
+    pub faults: FaultState,
+    /// sizes offered by the receiver at each call (vacant space), for the evidence
+    pub max_offered: usize,
+}
+
+pub struct ScriptRead {
+    pub st: Rc<RefCell<SourceState>>,
+    pub cfg: FaultCfg,
+    pub chunking: bool,
+}
+
+impl Read for ScriptRead {
+    fn read(&mut self, buf: &mut [u8]) -> io::Result<usize> {
+        let mut st = self.st.borrow_mut();
+        st.calls += 1;
+        st.calls_in_op += 1;
+        if st.calls_in_op > st.horizon_per_op {
+            drop(st);
+            panic!("{}", HORIZON_MSG);
+        }
+        st.max_offered = st.max_offered.max(buf.len());
+        let call = st.calls;
+        match fault_point(&self.cfg, &mut st.faults, call) {
+            Fault::Err(k) => return Err(k.into()),
+            Fault::Zero => return Ok(0),
+            Fault::None => {}
+        }
+        let remaining = st.stream.len() - st.pos;
+        let max = remaining.min(buf.len());
+        if max == 0 {
+            return Ok(0);
+        }
+        let k = if self.chunking { max - point(max) } else { max };
+        let p = st.pos;
+        buf[..k].copy_from_slice(&st.stream[p..p + k]);
+        st.pos += k;
+        Ok(k)
+    }
+}
+
+// ------------------------------------------------------------------------------------------
+// async pipe (bounded, in memory) + executor
+// ------------------------------------------------------------------------------------------
+
+pub struct APipe {
+    pub buf: VecDeque<u8>,
+    pub cap: usize,
+    pub writer_closed: bool,
+    pub reader_closed: bool,
+    pub read_waker: Option<Waker>,
+    pub write_waker: Option<Waker>,
+    pub accepted_total: usize,
+    pub flushed_mark: usize,
+    pub delivered_total: usize,
+    pub spurious_left: usize,
+    pub pendings: usize,
+    pub calls: usize,
+    /// a pipe that is called more often than this within one execution is being spun on
+    pub call_horizon: usize,
+    pub wfaults: FaultState,
+    pub rfaults: FaultState,
+    /// everything the writer handed over (for sink-shape oracles)
+    pub all_written: Vec<u8>,
+}
+
+impl APipe {
+    pub fn new(cap: usize, spurious: usize) -> Rc<RefCell<APipe>> {
+        Rc::new(RefCell::new(APipe {
+            buf: VecDeque::new(),
+            cap,
+            writer_closed: false,
+            reader_closed: false,
+            read_waker: None,
+            write_waker: None,
+            accepted_total: 0,
+            flushed_mark: 0,
+            delivered_total: 0,
+            spurious_left: spurious,
+            pendings: 0,
+            calls: 0,
+            call_horizon: 4000,
+            wfaults: FaultState::default(),
+            rfaults: FaultState::default(),
+            all_written: vec![],
+        }))
+    }
+}
+
+pub struct AWrite {
+    pub p: Rc<RefCell<APipe>>,
+    pub cfg: FaultCfg,
+}
+pub struct ARead {
+    pub p: Rc<RefCell<APipe>>,
+    pub cfg: FaultCfg,
+}
+
+impl Drop for AWrite {
+    fn drop(&mut self) {
+        let mut p = self.p.borrow_mut();
+        p.writer_closed = true;
+        if let Some(w) = p.read_waker.take() {
+            w.wake();
+        }
+    }
+}
+impl Drop for ARead {
+    fn drop(&mut self) {
+        let mut p = self.p.borrow_mut();
+        p.reader_closed = true;
+        if let Some(w) = p.write_waker.take() {
+            w.wake();
+        }
+    }
+}
+
+impl AsyncWrite for AWrite {
+    fn poll_write(self: Pin<&mut Self>, cx: &mut Context<'_>, data: &[u8]) -> Poll<io::Result<usize>> {
+        let mut p = self.p.borrow_mut();
+        p.calls += 1;
+        if p.calls > p.call_horizon {
+            drop(p);
+            panic!("{}", HORIZON_MSG);
+        }
+        let call = p.calls;
+        match fault_point(&self.cfg, &mut p.wfaults, call) {
+            Fault::Err(k) => return Poll::Ready(Err(k.into())),
+            Fault::Zero => return Poll::Ready(Ok(0)),
+            Fault::None => {}
+        }
+        if data.is_empty() {
+            return Poll::Ready(Ok(0));
+        }
+        if p.reader_closed {
+            return Poll::Ready(Err(io::ErrorKind::BrokenPipe.into()));
+        }
+        let space = p.cap - p.buf.len();
+        if space == 0 {
+            p.write_waker = Some(cx.waker().clone());
+            p.pendings += 1;
+            return Poll::Pending;
+        }
+        let m = data.len().min(space);
+        let spur = if p.spurious_left > 0 { 1 } else { 0 };
+        let c = point(m + spur);
+        if c >= m {
+            p.spurious_left -= 1;
+            p.pendings += 1;
+            cx.waker().wake_by_ref();
+            return Poll::Pending;
+        }
+        let k = m - c;
+        p.buf.extend(&data[..k]);
+        p.all_written.extend_from_slice(&data[..k]);
+        p.accepted_total += k;
+        if let Some(w) = p.read_waker.take() {
+            w.wake();
+        }
+        Poll::Ready(Ok(k))
+    }
+    fn poll_flush(self: Pin<&mut Self>, cx: &mut Context<'_>) -> Poll<io::Result<()>> {
+        let mut p = self.p.borrow_mut();
+        p.calls += 1;
+        if p.calls > p.call_horizon {
+            drop(p);
+            panic!("{}", HORIZON_MSG);
+        }
+        let call = p.calls;
+        match fault_point(&self.cfg, &mut p.wfaults, call) {
+            Fault::Err(k) => return Poll::Ready(Err(k.into())),
+            _ => {}
+        }
+        if p.spurious_left > 0 && point(2) == 1 {
+            p.spurious_left -= 1;
+            p.pendings += 1;
+            cx.waker().wake_by_ref();
+            return Poll::Pending;
+        }
+        p.flushed_mark = p.accepted_total;
+        Poll::Ready(Ok(()))
+    }
+    fn poll_close(self: Pin<&mut Self>, _cx: &mut Context<'_>) -> Poll<io::Result<()>> {
+        Poll::Ready(Ok(()))
+    }
+}
+
+impl AsyncRead for ARead {
+    fn poll_read(self: Pin<&mut Self>, cx: &mut Context<'_>, out: &mut [u8]) -> Poll<io::Result<usize>> {
+        let mut p = self.p.borrow_mut();
+        p.calls += 1;
+        if p.calls > p.call_horizon {
+            drop(p);
+            panic!("{}", HORIZON_MSG);
+        }
+        let call = p.calls;
+        match fault_point(&self.cfg, &mut p.rfaults, call) {
+            Fault::Err(k) => return Poll::Ready(Err(k.into())),
+            Fault::Zero => return Poll::Ready(Ok(0)),
+            Fault::None => {}
+        }
+        if out.is_empty() {
+            return Poll::Ready(Ok(0));
+        }
+        if p.buf.is_empty() {
+            if p.writer_closed {
+                return Poll::Ready(Ok(0));
+            }
+            p.read_waker = Some(cx.waker().clone());
+            p.pendings += 1;
+            return Poll::Pending;
+        }
+        let m = out.len().min(p.buf.len());
+        let spur = if p.spurious_left > 0 { 1 } else { 0 };
+        let c = point(m + spur);
+        if c >= m {
+            p.spurious_left -= 1;
+            p.pendings += 1;
+            cx.waker().wake_by_ref();
+            return Poll::Pending;
+        }
+        let k = m - c;
+        for i in 0..k {
+            out[i] = p.buf.pop_front().unwrap();
+        }
+        p.delivered_total += k;
+        if let Some(w) = p.write_waker.take() {
+            w.wake();
+        }
+        Poll::Ready(Ok(k))
+    }
+}
+
+struct Flag(AtomicBool);
+impl ArcWake for Flag {
+    fn wake_by_ref(a: &Arc<Self>) {
+        a.0.store(true, Ordering::SeqCst);
+    }
+}
+
+#[derive(Debug, Clone, PartialEq)]
+pub enum ExecEnd {
+    AllDone,
+    /// no task is runnable and not all are finished (a waker was lost)
+    Deadlock(Vec<usize>),
+    /// the poll horizon was exceeded (a future that never completes / busy loop)
+    Horizon,
+}
+
+/// Run the tasks to completion: a task is polled only after its waker fired; which runnable task
+/// goes next is a choice point.
+pub fn run_tasks<'a>(mut tasks: Vec<Option<Pin<Box<dyn Future<Output = ()> + 'a>>>>, horizon: usize) -> (ExecEnd, usize) {
+    let flags: Vec<Arc<Flag>> = tasks.iter().map(|_| Arc::new(Flag(AtomicBool::new(true)))).collect();
+    let wakers: Vec<Waker> = flags.iter().map(|f| waker(f.clone())).collect();
+    let mut polls = 0usize;
+    loop {
+        let pending: Vec<usize> = (0..tasks.len()).filter(|i| tasks[*i].is_some()).collect();
+        if pending.is_empty() {
+            return (ExecEnd::AllDone, polls);
+        }
+        let runnable: Vec<usize> = pending.iter().cloned().filter(|i| flags[*i].0.load(Ordering::SeqCst)).collect();
+        if runnable.is_empty() {
+            return (ExecEnd::Deadlock(pending), polls);
+        }
+        if polls >= horizon {
+            return (ExecEnd::Horizon, polls);
+        }
+        let t = runnable[point(runnable.len())];
+        flags[t].0.store(false, Ordering::SeqCst);
+        let mut cx = Context::from_waker(&wakers[t]);
+        polls += 1;
+        let done = tasks[t].as_mut().unwrap().as_mut().poll(&mut cx).is_ready();
+        if done {
+            tasks[t] = None; // drops the task's pipe end
+        }
+    }
+}
+
+pub fn cell<T>(v: T) -> Rc<Cell<T>> {
+    Rc::new(Cell::new(v))
+}
